@@ -108,6 +108,53 @@ BLOCKS = """blocks:
             ip: 0.0
             mult: 1.0
             op: 16.8
+    pin fuel: &block_pin_fuel
+        grid name: pins
+        fuel:
+            shape: Circle
+            material: UZr
+            Tinput: 25.0
+            Thot: 600.0
+            id: 0.0
+            od: 0.86
+            latticeIDs: [F]
+        clad:
+            shape: Circle
+            material: HT9
+            Tinput: 25.0
+            Thot: 470.0
+            id: 1.0
+            od: 1.09
+            latticeIDs: [F]
+        bond:
+            shape: Circle
+            material: Sodium
+            Tinput: 450.0
+            Thot: 450.0
+            id: fuel.od
+            od: clad.id
+            latticeIDs: [F]
+        coolant:
+            shape: DerivedShape
+            material: Sodium
+            Tinput: 450.0
+            Thot: 450.0
+        duct:
+            shape: Hexagon
+            material: HT9
+            Tinput: 25.0
+            Thot: 450.0
+            ip: 16.0
+            mult: 1.0
+            op: 16.7
+        intercoolant:
+            shape: Hexagon
+            material: Sodium
+            Tinput: 450.0
+            Thot: 450.0
+            ip: duct.op
+            mult: 1.0
+            op: 16.8
     plenum: &block_plenum
         axial expansion target component: clad
         clad:
@@ -157,7 +204,8 @@ def blueprint_text(spec):
     nfuel = int(spec.get("nfuel", 1))
     plate = bool(spec.get("plate", False))
     plenum = bool(spec.get("plenum", False))
-    blocks = (["*block_grid_plate"] if plate else []) + ["*block_fuel"] * nfuel + (["*block_plenum"] if plenum else [])
+    fuel_anchor = "*block_pin_fuel" if spec.get("pins") else "*block_fuel"
+    blocks = (["*block_grid_plate"] if plate else []) + [fuel_anchor] * nfuel + (["*block_plenum"] if plenum else [])
     if spec.get("dummy"):
         blocks.append("*block_dummy")
     nb = len(blocks)
@@ -204,6 +252,15 @@ def blueprint_text(spec):
         cells = [[i, j, "IC" if hex_ring(i, j) == 1 else "OC"] for (i, j) in hex_cells(int(spec.get("rings", 2)))]
     for i, j, t in cells:
         lines.append(f"        [{i}, {j}]: {t}")
+    if spec.get("pins"):
+        lines.append("    pins:")
+        lines.append("      geom: hex_corners_up")
+        lines.append("      symmetry: full")
+        lines.append("      lattice pitch:")
+        lines.append("        x: 1.2")
+        lines.append("      grid contents:")
+        for (i, j) in hex_cells(int(spec.get("pinrings", 2))):
+            lines.append(f"        [{i}, {j}]: F")
     if spec.get("sfp", True):
         lines.append("    sfp:")
         lines.append("      geom: cartesian")
